@@ -204,6 +204,9 @@ func Walk(v Visitor, node ast.Node) {
 		}
 
 	case *ast.Select:
+		if n.LeadingText != nil {
+			Walk(v, n.LeadingText)
+		}
 		for _, c := range n.Cases {
 			Walk(v, c)
 		}
@@ -257,6 +260,9 @@ func Walk(v Visitor, node ast.Node) {
 	case *ast.Switch:
 		Walk(v, n.Init)
 		Walk(v, n.Expr)
+		if n.LeadingText != nil {
+			Walk(v, n.LeadingText)
+		}
 		for _, c := range n.Cases {
 			Walk(v, c)
 		}
@@ -277,6 +283,9 @@ func Walk(v Visitor, node ast.Node) {
 	case *ast.TypeSwitch:
 		Walk(v, n.Init)
 		Walk(v, n.Assignment)
+		if n.LeadingText != nil {
+			Walk(v, n.LeadingText)
+		}
 		for _, c := range n.Cases {
 			Walk(v, c)
 		}
